@@ -51,6 +51,13 @@ CHECKS = {
  "C20": dict(level="model_checking", design="5/C20", technique="TLA+ ResourceTracker spec model-checked by TLC (action properties DeletedOnlyWhenDue / DeletedWhenDue); TLC-generated request sequences sent to a real resource_tracker.main on a private pipe with a sentinel barrier; reference counts from the guarded hook trace compared with the model",
              text="All sequences of <= 3 (thorough: 4) requests from 2 clients over files, a folder, a file inside it, nested folders, malformed lines and client exits, plus simulated sequences up to 10 requests: after every request the set of existing paths must equal the model's, the tracker must stay alive, and the final clean-up must delete exactly what is still registered.",
              note="Trusted base: TLC; clients are write ends of the pipe held by the driver; the hook (JOBLIB_VERIF_TRACE) is only used for the count-level drift measure."),
+
+ "C08": dict(level="exploration", design="5/C08", technique="TLA+ term universe (Hasher) enumerated by TLC: the digest must be a function of the term and injective on terms; every term built in several construction orders / aliasing variants and hashed with md5 and sha1 under several PYTHONHASHSEED",
+             text="Exhaustive over ~12k terms (depth <= 2, <= 2 elements per container): all digests of one term coincide over 3 construction orders, shared vs distinct string objects and 3-4 hash seeds; all-pairs discrimination by bucketing digests.",
+             note="The specification defines the universe and value identity; the digests come from the implementation. Open finding D17 (aliased tuples)."),
+ "C17": dict(level="model_checking", design="5/C17", technique="TLA+ ConfigScope (per-thread stacks of frames, resolution and backend-kind rules) model-checked by TLC; TLC-generated enter/exit programs replayed on two real threads, every thread observing Parallel with 9 explicit-argument variants after every step",
+             text="Isolation/restoration/sharedmem/explicit-backend rules are checked on the model; all programs of 3 actions (exhaustive in thorough) and simulated programs up to depth 4 are replayed and every resolved setting compared with the specification.",
+             note="Trusted base: TLC; backend names are bound to recording backends via register_parallel_backend. Open finding D11 (context n_jobs lost when threads are forced)."),
 }
 NA_REASON = "check not built yet (construction in progress, see DESIGN.md section 8c build order)"
 M = {"version": 1, "setup_cmd": "make -C /verif",
